@@ -46,8 +46,8 @@ Definition note_text (n : fnote) : ntext :=
      dur ++
      (if isn && nonzero (fo n) then [if dir_eqb (fd n) Abs then TO (fo n) else TOabs (fo n)] else []) ++
      (if is_rest_or_cont (fk n) && nonzero (fo n) then [TOabs (fo n)] else []) ++    (* r.oabs(k), l.oabs(k) *)
-     (if isn then match fmode n with Some m => [TMode m] | None => [] end else []) ++
-     (if isn then match facc n with Some a => [TAcc a] | None => [] end else []) ++
+     (match fmode n with Some m => [TMode m] | None => [] end) ++                  (* every kind of note: r.m, x0.dorian, d0.min *)
+     (match facc n with Some a => [TAcc a] | None => [] end) ++
      amp ++
      (match ftags n with [] => [] | l => [TTags l] end)).
 
@@ -133,7 +133,8 @@ Fixpoint join (sep : string) (l : list string) : string :=
 Definition tok_str (t : tok) : string :=
   match t with
   | TDur nm => "." ++ nm
-  | TAug a b => ".augment(frac(" ++ zstr a ++ ", " ++ zstr b ++ "))"
+  | TAug a b => if (b =? 1)%Z then ".augment(" ++ zstr a ++ ")"                     (* whole numbers are printed bare *)
+                else ".augment(frac(" ++ zstr a ++ ", " ++ zstr b ++ "))"
   | TO k => ".o(" ++ zstr k ++ ")"
   | TOabs k => ".oabs(" ++ zstr k ++ ")"
   | TMode m => "." ++ mode_str m
